@@ -227,6 +227,11 @@ fn stmt_effective_class(
         if !summary.available {
             return ExprClass::Impure;
         }
+        // Assigning a captured variable is an effect the caller can observe, whatever
+        // the effect class of the expressions inside the callee.
+        if !summary.transitive_capture_writes.is_empty() {
+            return ExprClass::Impure;
+        }
 
         class.join(summary.transitive_class)
     })
